@@ -42,7 +42,10 @@ func Equal(fg *FunctionGenerator) OperationMatrix {
 
 	ef := func(st funcGen.Stack[Value], a, b Value) (bool, error) {
 		eq, err := deepEqual.Calc(st, a, b)
-		return bool(eq.(Bool)), err
+		if err != nil {
+			return false, err
+		}
+		return bool(eq.(Bool)), nil
 	}
 	fg.equal = ef
 	fg.FunctionGenerator.SetIsEqual(ef)
